@@ -46,7 +46,7 @@ impl Obj {
     }
     fn feed_via(&mut self, f: u8, buf: &mut [u8]) {
         let inp = buf.to_vec();
-        if matches!(f, 2 | 10 | 11) {
+        if matches!(f, 2 | 10 | 11 | 13) {
             // separate output buffer: it must not matter what it held before the call
             for (i, x) in buf.iter_mut().enumerate() {
                 *x = 0xA5 ^ (i as u8).wrapping_mul(7);
@@ -68,6 +68,10 @@ impl Obj {
                     *b ^= k;
                 }
             }
+            (Obj::Bm(b), 13) => b.one(Kind::InOut, &inp, buf),
+            (Obj::Bm(b), 14) => b.one(Kind::Alias, &[], buf),
+            (Obj::Core(c), 13) => c.apply_block(Kind::InOut, &inp, buf),
+            (Obj::Core(c), 14) => c.apply_block(Kind::Alias, &[], buf),
             (Obj::Bm(b), 10) => {
                 let _ = b.many(Kind::B2b, &inp, buf);
             }
@@ -152,6 +156,8 @@ impl ResumeMachine<'_> {
             // the multi-block call in the other three kinds: b2b over exactly W blocks, two-buffer inout over W+1, one-buffer inout over W
             (_, 10) | (_, 12) => Some(par),
             (_, 11) => Some(par + 1),
+            // the single-block call as two-buffer inout and as one-buffer inout
+            (_, 13) | (_, 14) => Some(1),
             _ => None,
         }
     }
@@ -195,7 +201,7 @@ impl Machine for ResumeMachine<'_> {
                 v.push(Act::Feed(s));
             }
         }
-        for f in 1..=12u8 {
+        for f in 1..=14u8 {
             if let Some(n) = self.via_len(f) {
                 if used + n <= self.nmax {
                     v.push(Act::Via(f));
